@@ -135,9 +135,7 @@ def d2(chk, prog):
             good = (-5 <= l <= 5) and s <= 1 and (d is None or d > 0) and (g is None or Fr(3, 10) <= g <= Fr(7, 10))
             tb.cell(out.v[i] is (not good), dict(log2=str(l), spread=str(s), depth=str(d), gc=str(g), masked=out.v[i], want=not good))
     tb.done("the reference filter does not flag exactly the bins outside (log2 +-5, spread <= 1, depth > 0, GC 0.3-0.7)")
-    fl = prog.fn(f"{FIX}.load_adjust_coverages")
-    ok = any(isinstance(n, ast.Assign) and norm(n.value) == "~mask_bad_bins(ref_matched)" for n in own_nodes(fl.node))
-    chk.decide(ok, "bad-bin-mask", "load_adjust_coverages keeps ~mask_bad_bins(matched reference) for sample and reference alike", f"{fl.qn}::ok_cvg_indices", fl.loc(), "the filter must be computed on the matched reference rows")
+    # (that load_adjust_coverages keeps exactly the unflagged bins, of sample and matched reference alike, is decided in D10 on literal tables)
 
 
 def d3(chk, prog):
@@ -211,15 +209,21 @@ def d4(chk, prog):
     chk.decide(ok, "weight-bounds", "epsilon default = 1e-4", f"{fi.qn}::epsilon", fi.loc(), f"lower weight bound is {norm(eps) if eps is not None else None}, stated 0.0001")
     # interval analysis of the stored weight column, every branch combination (pooled / flat reference, antitargets present / mostly empty)
     tb = Table(chk, "weight-bounds", "apply_weights: interval of every stored weight is inside [1e-4, 1] (targets and antitargets, pooled and flat reference)", fi.loc(), fi.qn)
-    for with_anti, pooled in itertools.product([True, False], [True, False]):
+    # (third antitarget variant: one off-target bin has no coverage in the sample and is left out of the variance estimate -- it still gets a weight)
+    for with_anti, pooled in itertools.product([True, False, "one empty"], [True, False]):
         W.reset()
         genes = ["G", "H"] + (["Antitarget", "Antitarget"] if with_anti else [])
         rows = [dict(chromosome="chr1", start=Term.sym(f"s{i}", 0, INF, True), end=Term.sym(f"e{i}", 1, INF, True), gene=g, log2=Term.sym(f"v{i}"), depth=Term.sym(f"d{i}", 0, INF)) for i, g in enumerate(genes)]
-        cn = make_ga("CopyNumArray", rows, {"sample_id": "S"}, index="any")
-        ref = make_ga("CopyNumArray", [dict(chromosome="chr1", start=r["start"], end=r["end"], gene=r["gene"], log2=Term.sym(f"R{i}"), spread=Term.sym(f"sp{i}", 0, INF)) for i, r in enumerate(rows)], {}, index="any")
+        lit = with_anti == "one empty"            # literally these four rows (labels that are not positions): a row dropped is a row gone
+        cn = make_ga("CopyNumArray", rows, {"sample_id": "S"}, index="any", **(dict(exact=True, labels=[9, 4, 7, 2]) if lit else {}))
+        ref = make_ga("CopyNumArray", [dict(chromosome="chr1", start=r["start"], end=r["end"], gene=r["gene"], log2=Term.sym(f"R{i}"), spread=Term.sym(f"sp{i}", 0, INF)) for i, r in enumerate(rows)], {}, index="any",
+                      **(dict(exact=True, labels=[9, 4, 7, 2]) if lit else {}))
         model = Model()
         model.prims["cnvlib.descriptives.biweight_midvariance"] = lambda it, *a, **k: Term.sym(f"bmv{len(W.sym_range)}", 0, INF)
-        model.method_prims["drop_low_coverage"] = lambda it, g, *a, **k: g
+        if with_anti == "one empty":
+            model.method_prims["drop_low_coverage"] = lambda it, g, *a, **k: it.lib.load_subscript(it, g, Vec([i != g.data.n - 1 or g.data.cols["gene"].v[i] != "Antitarget" for i in range(g.data.n)]))
+        else:
+            model.method_prims["drop_low_coverage"] = lambda it, g, *a, **k: g
         model.method_prims["residuals"] = lambda it, g, *a, **k: Vec([Term.sym(f"res{i}") for i in range(g.data.n)])
         it = Interp(prog, model)
         old = CTX.atoms
@@ -235,6 +239,9 @@ def d4(chk, prog):
             tb.cell(False, dict(antitargets=with_anti, pooled=pooled, weight_column=None))
             continue
         for i, x in enumerate(w.v):
+            if x is None:
+                tb.cell(False, dict(antitargets=with_anti, pooled=pooled, bin=genes[i], weight="missing (NaN)"))
+                continue
             t = T(x)
             tb.cell(t.lo >= 1e-4 - 1e-18 and t.hi <= 1, dict(antitargets=with_anti, pooled=pooled, bin=genes[i], weight=repr(t)[:120], interval=[t.lo, t.hi]))
     tb.done("a stored bin weight can leave [1e-4, 1] (0 or negative weights break the segmenters; > 1 is not a weight)")
@@ -319,17 +326,14 @@ def d7(chk, prog):
                 callee_modules=(FIX, "cnvlib.cnary"))
 
 
+class _Stop(Exception):
+    pass
+
+
 def d8(chk, prog):
     chk.clause("D8", "sample / reference pairing: sorted copy before matching; same index provenance for both tables at return")
     fi = prog.fn(f"{FIX}.load_adjust_coverages")
-    par = parents(fi.node)
-    srt = [n for n in own_nodes(fi.node) if isinstance(n, ast.Call) and norm(n.func) == "cnarr.sort"]
-    cp = [n for n in own_nodes(fi.node) if isinstance(n, ast.Assign) and norm(n.targets[0]) == "cnarr" and norm(n.value) == "cnarr.copy()"]
-    mt = [n for n in own_nodes(fi.node) if isinstance(n, ast.Call) and norm(n.func) == "match_ref_to_sample"]
-    ok = len(srt) == 1 and len(cp) >= 1 and len(mt) == 1 and dominates(cp[0], stmt_of(srt[0], par), par) and dominates(stmt_of(srt[0], par), stmt_of(mt[0], par), par)
-    chk.decide(ok, "row-pairing", "cnarr = cnarr.copy(); cnarr.sort() precede match_ref_to_sample", f"{fi.qn}::sorted copy", fi.loc(),
-               "the corrections re-sort the bins; unless the sample is put in genomic order (on a copy) before the reference is matched, the renumbered rows of the two "
-               "tables no longer correspond when the caller's rows were unsorted")
+    # (the sample is put in genomic order, on a copy, before the reference is matched: recorded by the stubs of the table below -- `sample_sorted_before_match`, `c is not samp`)
     tb = Table(chk, "row-pairing", "load_adjust_coverages: index provenance of (sample, reference) at return", fi.loc(), fi.qn)
     for fix_gc, fix_edge, fix_rmask, ref_gc, ref_rmask, low in itertools.product([True, False], [True, False], [True, False], [True, False], [True, False], [False, True]):
         W.reset()
@@ -377,12 +381,38 @@ def d8(chk, prog):
         tb.cell(ok, dict(fix_gc=fix_gc, fix_edge=fix_edge, fix_rmask=fix_rmask, reference_has_gc=ref_gc, reference_has_rmask=ref_rmask, mostly_low_coverage=low,
                          sample_index=c.data.index, reference_index=r.data.index, sample_sorted_before_match=matched.get("sample_sorted"),
                          note="'range' = renumbered 0..n-1 after a correction re-sorted the bins; 'subset' = filtered in place, labels kept"))
+    # the sample reaches the matching step in genomic order whatever order its rows came in (literal tables)
+    tbs = Table(chk, "row-pairing", "load_adjust_coverages on literal sample tables in 5 row orders: the rows handed to match_ref_to_sample are in (chromosome, start, end) order, the caller's table untouched", fi.loc(), fi.qn + "::sorted copy")
+    base = [("chr1", 0, 50), ("chr1", 100, 150), ("chr1", 100, 180), ("chr2", 0, 50), ("chr10", 20, 70)]
+    for label, order in (("already sorted", [0, 1, 2, 3, 4]), ("chromosome blocks swapped", [3, 0, 1, 2, 4]), ("chr10 before chr2", [0, 1, 2, 4, 3]), ("starts descending", [1, 0, 2, 3, 4]), ("equal starts, ends descending", [0, 2, 1, 3, 4])):
+        W.reset()
+        model = Model()
+        rows = [dict(chromosome=base[i][0], start=base[i][1], end=base[i][2], gene="G", log2=Fr(i, 4), depth=Fr(3)) for i in order]
+        samp = make_ga("CopyNumArray", rows, {"sample_id": "S"}, index="range", exact=True, labels=list(range(len(rows))))
+        ref = make_ga("CopyNumArray", [dict(chromosome=c, start=a, end=b, gene="G", log2=0, spread=Fr(1, 10)) for c, a, b in base], {"sample_id": "R"}, exact=True)
+        seen = {}
+
+        def match(it, r, s_, seen=seen):
+            seen["at_match"] = list(zip(s_.data.cols["chromosome"].v, [int(T(x).cval()) for x in s_.data.cols["start"].v], [int(T(x).cval()) for x in s_.data.cols["end"].v]))
+            raise _Stop()
+        model.prims[f"{FIX}.match_ref_to_sample"] = match
+        it = Interp(prog, model)
+
+        def go():
+            try:
+                it.run(fi.qn, [samp, ref, False, False, False, False, None])
+            except _Stop:
+                return "matched"
+            return "returned"
+        out = tbs.guard(go, label)
+        if out is None:
+            continue
+        before = [(base[i][0], base[i][1], base[i][2]) for i in order]
+        now = list(zip(samp.data.cols["chromosome"].v, [int(T(x).cval()) for x in samp.data.cols["start"].v], [int(T(x).cval()) for x in samp.data.cols["end"].v]))
+        tbs.cell(out == "matched" and seen.get("at_match") == base and now == before, dict(input_order=label, rows_at_match=seen.get("at_match"), want=base, callers_rows_after=now))
+    tbs.done("the sample is not in genomic order when the reference is matched to it (the corrections re-sort the bins, so the renumbered rows of the two tables stop corresponding), or the caller's table is re-ordered")
     tb.done("after load_adjust_coverages the sample rows are renumbered while the matched reference rows keep their labels (or vice versa): "
             "`log2 -= reference` then aligns by label onto the wrong bins / yields NaN")
-    fd = prog.fn(f"{FIX}.do_fix")
-    sub = [n for n in own_nodes(fd.node) if isinstance(n, ast.AugAssign) and isinstance(n.op, ast.Sub) and norm(n.target) == "cnarr.data['log2']"]
-    ok = len(sub) == 1 and norm(sub[0].value) == "ref_matched[log2_key]"
-    chk.decide(ok, "row-pairing", "cnarr.data['log2'] -= ref_matched[log2_key] (label-aligned Series subtraction)", f"{fd.qn}::subtraction", fd.loc(), "the subtraction operand changed")
 
 
 def d9(chk, prog):
@@ -445,10 +475,7 @@ def d9(chk, prog):
                 want = t_sub(want, t_div(t_mul(r, r), t_mul(t_mul(four, i), t)))
             tb.cell(same(out.v[k], want), dict(case=label, got=repr(out.v[k]), want=repr(want)))
     tb.done("edge_gains is not (i-g')^2/4it minus the part of the flank extending past the target, with overlapping neighbours treated as adjacent")
-    fe = prog.fn(f"{FIX}.get_edge_bias")
-    rets = [norm(r.value) for r in own_nodes(fe.node) if isinstance(r, ast.Return)]
-    ok = rets == ["pd.Series(np.concatenate(output_by_chrom), index=cnarr.data.index)"] and any(isinstance(n, ast.Call) and norm(n.func) == "output_by_chrom.append" and norm(n.args[0]) == "gains - losses" for n in own_nodes(fe.node))
-    chk.decide(ok, "edge-formula", "edge bias = gains - losses per bin, on the bins' own index", f"{fe.qn}::combine", fe.loc(), f"get_edge_bias returns {rets}")
+    # (gains - losses per bin, laid out in row order on the bins' own index: D10, get_edge_bias on literal tables)
 
 
 def d10(chk, prog):
@@ -494,6 +521,12 @@ def d10(chk, prog):
             continue
         want_frac = frac if frac is not None else {16: Fr(1, 4), 9: Fr(1, 3), 4: Fr(1, 2)}[kept]
         ok = len(calls) == 3 and all(c[0] == kept and c[2] == kept for c in calls)
+        # the bins returned -- sample and matched reference alike -- are exactly those the reference filter did not flag
+        want_starts = [100 * i for i in range(n) if not bad[i]]
+        for tab in (out if isinstance(out, tuple) else ()):
+            got_starts = [int(T(x).cval()) for x in tab.data.cols["start"].v] if isinstance(tab, GA) else None
+            ok = ok and got_starts == want_starts
+        ok = ok and isinstance(out, tuple) and len(out) == 2
         for c in calls:
             f_ = c[1]
             try:
@@ -571,7 +604,7 @@ def run(chk):
 _F = "cnvlib/fix.py"
 MUTANTS = [
     dict(name="cli: fix swaps the gc and edge switches", file="cnvlib/commands.py", old="        args.do_gc,\n        args.do_edge,\n        args.do_rmask,\n        args.cluster,\n        args.smoothing_window_fraction,", new="        args.do_edge,\n        args.do_gc,\n        args.do_rmask,\n        args.cluster,\n        args.smoothing_window_fraction,"),
-    dict(name="cli: --no-rmask stores into do_edge", file="cnvlib/commands.py", old='    "--no-rmask",\n    dest="do_rmask",', new='    "--no-rmask",\n    dest="do_edge",'),
+    dict(name="cli: --no-rmask stores into do_edge", file="cnvlib/commands.py", old='P_fix.add_argument(\n    "--no-rmask",\n    dest="do_rmask",', new='P_fix.add_argument(\n    "--no-rmask",\n    dest="do_edge",'),
     dict(name="missing-bin raise turned into a warning", file=_F, old="        raise ValueError(\n            f\"Reference is missing {num_missing} bins found in {samp_cnarr.sample_id}\"\n        )", new="        logging.warning(\n            f\"Reference is missing {num_missing} bins found in {samp_cnarr.sample_id}\"\n        )"),
     dict(name="reference keyed by (chromosome, start) only", file=_F, old="    ref_labeled = ref_cnarr.data.set_index(pd.Index(ref_cnarr.coords()))", new="    ref_labeled = ref_cnarr.data.set_index(pd.Index([r[:2] for r in ref_cnarr.coords()]))"),
     dict(name="matched reference keeps its own labels", file=_F, old="        ref_matched.reset_index(drop=True).set_index(samp_cnarr.data.index)\n", new="        ref_matched.reset_index(drop=True)\n"),
